@@ -1,6 +1,10 @@
 # -*- coding: utf-8 -*-
 """C12 - a refused operation leaves the file exactly as it was."""
+import json
+
+from . import core
 from . import modelreplay as mr
+from . import runner
 from .modelcheck import run_property
 
 
@@ -11,7 +15,7 @@ def run(tier, seed, verdict):
                         name_pools=[0, 1, 2, 4], accept=refused_only, stride=1 if quick else 2),
             mr.ModelRun("MC_C12_free.cfg", seed + 1, probes=("free_name",), name_pools=[0, 2, 4],
                         accept=refused_only, stride=4 if quick else 1)]
-    return run_property(
+    level, cov, assumptions = run_property(
         "C12", verdict, runs,
         require_actions=("Create:refused:DuplicateName", "CreateBad:refused:EmptyName", "CreateBad:refused:SlashName",
                          "CreateBad:refused:EmptyType", "LinkAppend:refused:WrongKind", "LinkAppend:refused:ForeignBlock",
@@ -26,7 +30,65 @@ def run(tier, seed, verdict):
         assumptions=["fault classes driven here: duplicate / empty / slash name, empty type, type=None, wrong kind, "
                      "foreign block, not a member, unknown name / out-of-range index on delete, positions=None; the "
                      "data-type, shape, ticks and value-type classes are driven by the array / metadata checks"])
+    # refused calls of the other stateful modules: only the refused transitions are replayed here
+    refused = lambda tx: tx["act"].get("out", "ok") != "ok"  # noqa
+    from . import c10, c16, dimlink, c05
+    extra = [
+        ("NixMeta", runner.ExportRun("MC_NixMeta", "MC_C10_quick.cfg", seed, "harness.c10", accept=refused,
+                                     opts={"names": ["n1", "n2"], "attrs": []}, stride=6 if quick else 1)),
+        ("NixFrame", runner.ExportRun("MC_NixFrame", "MC_C16_quick.cfg", seed, "harness.c16", accept=refused,
+                                      stride=3 if quick else 1, label=lambda tx: c16.klass(tx["act"]) + ":" + tx["act"]["out"])),
+        ("NixDimLink", runner.ExportRun("MC_NixDimLink", "MC_C05_dims_quick.cfg", seed, "harness.dimlink", accept=refused,
+                                        opts={"ranks": c05.RANKS}, stride=2 if quick else 1,
+                                        label=lambda tx: dimlink.klass(tx["act"]) + ":" + tx["act"]["out"])),
+        ("NixArray", runner.ExportRun("MC_NixArray", "MC_C01_quick.cfg", seed, "harness.arrayrefused", accept=refused,
+                                      stride=1)),
+    ]
+    cov["other_modules"] = {}
+    for name, r in extra:
+        r.run()
+        if r.res.violation is not None:
+            verdict.violation("tlc/%s/%s" % (name, r.res.violation[:80]), {"tlc": r.res.violation})
+        for f in r.findings:
+            owner = f.get("owner") or (c10.owner_of(f) if name == "NixMeta" else c16.owner_of(f) if name == "NixFrame" else "C12")
+            if owner == "C12" or f.get("stage") == "outcome":
+                verdict.violation("%s/%s" % (name, f["key"]), f["detail"], f.get("replay"))
+        if not r.stats["replayed"]:
+            raise core.MachineryError("vacuity: no refused transition of %s replayed" % name)
+        cov["states"] += r.res.distinct
+        cov["transitions"] += r.stats["exported"]
+        cov["traces_validated_against_impl"] += r.stats["replayed"] - r.counters.get("truncated", 0)
+        cov["evaluations"] += r.stats["replayed"]
+        cov["distinct_nontrivial"] += r.stats["replayed"] - r.counters.get("truncated", 0)
+        cov["other_modules"][name] = {"refused_replayed": r.stats["replayed"],
+                                      "classes": {k: v for k, v in sorted(r.per_action.items()) if not k.endswith(":ok")}}
+        cov["checker_cmd"] += " ;; " + r.res.cmd
+    cov["rule"] += "; plus every refused transition of the metadata (wrong / mixed value types, duplicate and unknown "\
+                   "names), data-frame (wrong length, unknown column, out-of-range row, duplicate column, wrong row width), "\
+                   "dimension-link (illegal index specifications, unsupported descriptor kind, labels of a linked "\
+                   "dimension, unordered ticks) and array (index out of range, append rank / shape mismatch, creation "\
+                   "shape mismatch) modules, replayed with the full projection of that module before and after"
+    return level, cov, assumptions
 
 
 def replay(path):
+    with open(path) as fh:
+        rec = json.load(fh)
+    key = rec.get("key", "")
+    from . import c10, c16, dimlink
+    if key.startswith("NixMeta/"):
+        rec["key"] = key[len("NixMeta/"):]
+        json.dump(rec, open(path + ".tmp", "w"))
+        return c10.replay(path + ".tmp", prop="C12")
+    if key.startswith("NixFrame/"):
+        rec["key"] = key[len("NixFrame/"):]
+        json.dump(rec, open(path + ".tmp", "w"))
+        return c16.replay(path + ".tmp", prop="C12")
+    if key.startswith("NixDimLink/"):
+        rec["key"] = key[len("NixDimLink/"):]
+        return dimlink.replay_record(rec, "C12")
+    if key.startswith("NixArray/"):
+        from . import arrayrefused
+        rec["key"] = key[len("NixArray/"):]
+        return arrayrefused.replay_record(rec)
     return mr.replay_file(path)
